@@ -45,6 +45,17 @@ CHECKS = {
           "detect_protoclusters_and_signatures with dynamic profiles, at two scales; Detect_Trace (TLC) decides every result."),
     design="6/C03", technique="TLA+ spec (Detect.tla) + TLC model checking + TLC trace validation of the detection pipeline",
     note=TRUSTED + "Layouts/rulesets are seeded samples over TLC-enumerated catalogues (not exhaustive); hits enter as data."),
+ "C07": dict(
+    text=("Metamorphic action properties on Detect.tla: TLC checks on the model that rotating the origin (Ring!Shift of every "
+          "gene) and permuting the rules changes neither anchors, chains nor reference protoclusters; the real pipeline "
+          "(detection, candidate clusters, regions) is run on a circular record, on the same record re-indexed at 4 (quick) / all "
+          "(thorough) other origins, and with every permutation / sub-selection of the ruleset; Detect_Trace (TLC, op meta) rotates "
+          "the scene itself and decides equality of the gene-level views (protocluster core/extent members, candidate and region "
+          "members) whenever every region spans less than half the record, and independence from other rules up to removed "
+          "superiors."),
+    design="6/C07", technique="TLA+ action properties (Detect.tla, Ring!Shift) + TLC + differential trace validation of the pipeline",
+    note=TRUSTED + "Seeded samples of rulesets/layouts over TLC-enumerated catalogues; the rotated record is built from scratch by "
+         "the harness with the spec's Shift (python twin in props/c07.py rotate_loc)."),
 }
 CHECKS_END = None
 NOT_BUILT = "not built yet (work in progress, see DESIGN.md section 10 build order)"
